@@ -79,6 +79,8 @@ def fn_of(desc):
         f = lambda x: x is None  # noqa: E731
     elif name == 'addargs':
         f = lambda *a: sum(a)  # noqa: E731
+    elif name == 'rec':
+        f = lambda *a, **kw: (a, kw)  # noqa: E731     records how it was called
     elif name == 'list':
         f = list
     elif name == 'tuple':
@@ -101,7 +103,7 @@ def fn_of(desc):
 
 FN_COQ = {'id': 'FId', 'len': 'FLen', 'inc': 'FInc', 'dbl': 'FDbl', 'even': 'FEven', 'skip_if_odd': 'FSkipIfOdd',
           'stop_if_neg': 'FStopIfNeg', 'is_none': 'FIsNone', 'addargs': 'FAddArgs', 'list': 'FList', 'tuple': 'FTuple',
-          'int': 'FInt', 'str': 'FStr', 'sum': 'FSum', 'max': 'FMax'}
+          'int': 'FInt', 'str': 'FStr', 'sum': 'FSum', 'max': 'FMax', 'rec': 'FRec'}
 
 
 def fn_coq(desc):
